@@ -8,7 +8,7 @@ from ..wasi import Violation, AgentDied
 ID = 'C14'
 LEVEL = 'exploration'
 RULE = ('Hypothesis RuleBasedStateMachine over the ASan+UBSan agent and a generated directory tree (files, directories, '
-        'symlinks incl. dangling and directory links): path_create_directory / remove_directory / unlink_file / rename / symlink / '
+        'symlinks incl. dangling and directory links; FIFOs and unix sockets put there by the host): path_create_directory / remove_directory / unlink_file / rename / symlink / '
         'readlink / filestat_get (both layouts), relative to the pre-open and to directory descriptors obtained by '
         'path_open(O_DIRECTORY), with relative and absolute guest paths (inside the sandbox), guest path bytes followed by '
         'non-NUL junk, lengths 0, 1, ..., around the host limit and up to 2*PATH_MAX (built from ./ repetitions and long names), '
@@ -26,7 +26,7 @@ ASSUME = ['tmpfs directory offsets are stable while the directory is unchanged (
 NONTRIVIAL = ('non_preopen_dirfd', 'path_near_limit', 'listing_needs>=3_calls', 'resume', 'restart')
 NAMES = ['a', 'b.txt', 'empty', 'dir1', 'dir1/x', 'dir2', 'dir2/sub', 'dir2/sub/y', 'emptydir', 'lnk', 'dlnk', 'dangling', 'new1', 'new2',
          'dir1/new3', 'nd', 'nd/in', 'dlnk/x', 'a/b', 'missing/z', '.', '..', 'dir1/..', './a', 'dir2//sub', 'N' * 255, 'M' * 256,
-         'dir1/' + 'k' * 200, 'x y', 'éè', 'loop']
+         'dir1/' + 'k' * 200, 'x y', 'éè', 'loop', 'fifo0', 'sock1', 'dir1/fifo1']
 
 
 def pad_path(b, total, absolute):
@@ -140,6 +140,35 @@ class C14Machine(RuleBasedStateMachine):
           resume=st.one_of(st.none(), st.integers(0, 30)), restart=st.booleans())
     def readdir(self, di, bufsize, resume, restart):
         self.ex.readdir(self.pick_dir(di), bufsize, resume, restart)
+
+    @rule(kinds=st.lists(st.sampled_from(['fifo', 'fifo', 'sock']), min_size=1, max_size=4), di=st.integers(0, 5),
+          bufsize=st.sampled_from([64, 100, 512, 4096]))
+    def host_special(self, kinds, di, bufsize):
+        # entries of file types the guest cannot create (FIFO, socket: WASI type 'unknown'), several of them in one directory, then a
+        # listing: every entry exactly once, with the inode / type / name length of lstat
+        dfd = self.pick_dir(di)
+        self.ex.host_special(dfd, kinds)
+        self.ex.readdir(dfd, bufsize, None, False)
+
+    @rule(name=st.sampled_from(['dir1', 'dir2/sub', '.', 'emptydir', 'dir1/..']), slack=st.one_of(st.integers(3, 12), st.integers(3, 300)),
+          di=st.integers(0, 5), kinds=st.lists(st.sampled_from(['fifo', 'sock']), min_size=0, max_size=3),
+          bufsize=st.sampled_from([64, 300, 4096]))
+    def long_dir_descriptor(self, name, slack, di, kinds, bufsize):
+        # a directory descriptor whose own path is only `slack` bytes short of the host limit (opened through a './'-padded guest
+        # path): whatever the host later appends to it (entry names while listing, guest paths) has to fit or be refused
+        dfd = self.pick_dir(di)
+        total = self.ex.PATH_MAX - 1 - slack - len(self.ex.fds[dfd]['wpath']) - 1
+        if total < len(name) + 2:
+            return
+        nb = pad_path(name.encode(), total, False)
+        fd = self.ex.path_open(dfd, nb.decode(), wasifs.O_DIRECTORY, True, False, False)
+        if fd is None or self.ex.fds[fd]['kind'] != 'dir':
+            return
+        self.dirfds.append(fd)
+        self.ex.flags.add('path_near_limit')
+        if kinds:
+            self.ex.host_special(fd, kinds)
+        self.ex.readdir(fd, bufsize, None, False)
 
     @rule(n=st.integers(1, 12), di=st.integers(0, 5))
     def populate(self, n, di):
